@@ -229,6 +229,22 @@ def proof_status(prop, br, rundir, extra_files=()):
         if failed:
             problems.append("failed files: " + ", ".join(failed))
         return res
+    # Print Assumptions walks every proof term the theorems depend on (tens of seconds for the larger
+    # developments); its result is a function of the compiled library, which embeds the checksums of all
+    # its dependencies, so it is cached under the sha256 of Props/Cxx.vo
+    vo_hash = hashlib.sha256(open(vo, "rb").read()).hexdigest()
+    os.makedirs(os.path.join(CACHE, "pa_cache"), exist_ok=True)
+    cache_file = os.path.join(CACHE, "pa_cache", prop + ".json")
+    try:
+        hit = json.load(open(cache_file))
+    except (OSError, ValueError):
+        hit = None
+    if hit and hit.get("vo") == vo_hash and hit.get("names") == names:
+        res["axioms"] = hit["axioms"]
+        res["discharged"] = hit["discharged"]
+        problems.extend(hit["pa_problems"])
+        return res
+    n_before = len(problems)
     pa = os.path.join(rundir, "PA_%s.v" % prop)
     with open(pa, "w") as fh:
         fh.write("From FV Require Import Props.%s.\n" % prop)
@@ -255,6 +271,14 @@ def proof_status(prop, br, rundir, extra_files=()):
                 problems.append("theorem %s depends on non-stdlib axioms %s" % (n, bad))
             else:
                 res["discharged"] += 1
+    try:
+        entry = {"vo": vo_hash, "names": names, "axioms": res["axioms"], "discharged": res["discharged"],
+                 "pa_problems": problems[n_before:]}
+        with open(cache_file + ".tmp%d" % os.getpid(), "w") as fh:
+            json.dump(entry, fh)
+        os.replace(cache_file + ".tmp%d" % os.getpid(), cache_file)
+    except OSError:
+        pass
     return res
 
 
